@@ -44,7 +44,7 @@ def _argclass(spec):
                                         ('tiny' if abs(float(v)) <= 1e-100 else
                                          ('neg' if float(v) < 0 else 'pos')))
     return k + ':' + mag
-MACHINERY_CLAUSES = ('MachineryWitness', 'MachineryOrder', 'MachinerySymbol', 'MachineryNoZeroProbe', 'UnknownEvent',
+MACHINERY_CLAUSES = ('MachineryWitness', 'MachineryOrder', 'MachinerySymbol', 'MachineryNoZeroProbe', 'MachineryNoRepeatedAttempt', 'UnknownEvent',
                      'UnknownAccessor')
 ACCESSORS = [('P0', 'pressure', None), ('T0', 'temp', None), ('V0', 'volume', None),
              ('m_e', 'mass', 'amu'), ('m_p', 'mass', 'amu')]
@@ -101,27 +101,44 @@ def _exec_row(case):
     u = case['u']
     td = c.type_dict
     vs, vtypes, mism = [], [], []
-    variants = ['one', 'omitted', 'zero']          # num = 1.0, num not given, num = 0
-    refused = [[], [], []]
-    for cell in case['row']:
+    # every pair is asked five times inside this one process: three times in a row (num = 1.0,
+    # num not given, num = 0), once more after all the other pairs of the row have been asked
+    # ('again'), and once more after a successful conversion u -> u ('after_success')
+    variants = ['one', 'omitted', 'zero', 'again', 'after_success']
+    refused = [[] for _ in variants]
+    exc_names = [[] for _ in variants]
+    cells = case['row']
+
+    def attempt(k, num, cell, factor):
         v = cell['v']
-        vs.append(v)
-        vtypes.append(td.get(v, ''))
+        ok, d, exc = _conv(c, num, u, v)
+        refused[k].append(not ok)
+        exc_names[k].append('' if ok else str(exc))
+        if 'expect' in cell:
+            got = 'ok' if ok else 'refused'
+            if got != cell['expect']:
+                mism.append({'clause': 'ReplayOutcome', 'u': u, 'v': v, 'num': variants[k],
+                             'expected': cell['expect'], 'got': got, 'exception': exc})
+            elif ok and cell.get('has10') and factor:
+                # num = 1.0 and an omitted num give the factor itself
+                if _norm(d) != [1, cell['p10']]:
+                    mism.append({'clause': 'ReplayFactor', 'u': u, 'v': v, 'num': variants[k],
+                                 'expected': [1, cell['p10']], 'got': _norm(d)})
+
+    for cell in cells:
+        vs.append(cell['v'])
+        vtypes.append(td.get(cell['v'], ''))
         for k, num in enumerate((1.0, None, 0)):
-            ok, d, exc = _conv(c, num, u, v)
-            refused[k].append(not ok)
-            if 'expect' in cell:
-                got = 'ok' if ok else 'refused'
-                if got != cell['expect']:
-                    mism.append({'clause': 'ReplayOutcome', 'u': u, 'v': v, 'num': variants[k],
-                                 'expected': cell['expect'], 'got': got, 'exception': exc})
-                elif ok and cell.get('has10') and k < 2:
-                    # both num = 1.0 and an omitted num give the factor itself
-                    if _norm(d) != [1, cell['p10']]:
-                        mism.append({'clause': 'ReplayFactor', 'u': u, 'v': v, 'num': variants[k],
-                                     'expected': [1, cell['p10']], 'got': _norm(d)})
+            attempt(k, num, cell, k < 2)
+    for cell in cells:
+        attempt(3, 1.0, cell, True)
+    self_ok, _, _ = _conv(c, 2.5, u, u)                 # a successful conversion of u, if u is a unit
+    for cell in reversed(cells):
+        attempt(4, 1.0, cell, True)
+    refused[4].reverse()
+    exc_names[4].reverse()
     ev = {'ev': 'cross', 'u': u, 'utype': td.get(u, ''), 'vs': vs, 'vtypes': vtypes,
-          'variants': variants, 'refused': refused}
+          'variants': variants, 'refused': refused, 'exc': exc_names, 'self_ok': self_ok}
     return [ev], mism
 
 
@@ -668,6 +685,11 @@ def run(ctx):
             if bad.ok or bad.violated != inv:
                 raise core.MachineryError('%s should be rejected by %s:\n%s'
                                           % (cfg, inv, bad.out[-1500:]))
+        ctx.model('MC_UnitsRefuse', 'MC_UnitsRefuse', workers=4)
+        bad = ctx.model('MC_UnitsRefuse', 'MC_UnitsRefuse_cache', workers=4, expect_ok=False)
+        if bad.ok or bad.violated != 'RefusedEveryTime':
+            raise core.MachineryError('MC_UnitsRefuse_cache should be rejected by RefusedEveryTime:\n'
+                                      + bad.out[-1500:])
         ctx.notes.append('design model: an inverted table entry passes every algebra law '
                          '(MC_Units_inverted_algebra) and is rejected only by DerivedAgree; an edited '
                          'pairwise cell and a dropped temperature offset are rejected by PathIndependent')
@@ -745,7 +767,7 @@ def run(ctx):
                                           'npnum:count:frac', 'sym:count:npi64', 'num:count:npf64',
                                           'formula:formula:repeat', 'formula:formula:two-digit',
                                           'formula:formula:zero', 'formula:random', 'mixed:random']),
-                          ('cross_variants', ['one', 'omitted', 'zero'])):
+                          ('cross_variants', ['one', 'omitted', 'zero', 'again', 'after_success'])):
             missing += [grp + '/' + k for k in keys if not cov[grp].get(k)]
         for k in ('accessor_keyword_calls', 'h_bar_forms', 'elements_by_alternate_symbol',
                   'positional_calls'):
